@@ -51,6 +51,8 @@ type proj struct {
 type behaviour struct {
 	Shape   string   `json:"shape"`
 	Methods []string `json:"methods"`
+	CEnc    string   `json:"cenc"`
+	SEnc    string   `json:"senc"`
 	Relay   relayRec `json:"relay"`
 	C       proj     `json:"c"`
 	S       proj     `json:"s"`
@@ -86,6 +88,8 @@ func (b *behaviour) shapeName() string {
 type job struct {
 	Kind   string         `json:"kind"` // "C04"
 	Shape  string         `json:"shape"`
+	CEnc   string         `json:"cenc"` // encryption policy of the client / the server ("" = REQUIRED)
+	SEnc   string         `json:"senc"`
 	Relay  relayRec       `json:"relay"`
 	Action wire.C04Action `json:"action"`
 	// what the model's untouched run of this shape looks like
@@ -95,7 +99,18 @@ type job struct {
 	NS2C     int `json:"n_s2c"`
 }
 
-func shapeConfig(shape string) hsreal.Config {
+func (j *job) encPair() string {
+	ce, se := j.CEnc, j.SEnc
+	if ce == "" {
+		ce = "REQUIRED"
+	}
+	if se == "" {
+		se = "REQUIRED"
+	}
+	return ce + "/" + se
+}
+
+func shapeConfig(shape, cenc, senc string) hsreal.Config {
 	var m []string
 	switch shape {
 	case "CLAIMTOBE", "resumed":
@@ -103,14 +118,21 @@ func shapeConfig(shape string) hsreal.Config {
 	case "TOKEN":
 		m = []string{"TOKEN"}
 	}
-	e := hsreal.End{Auth: "PREFERRED", Enc: "REQUIRED", Methods: m, Ciphers: []string{"AES"}}
-	return hsreal.Config{C: e, S: e, Cmd: true}
+	if cenc == "" {
+		cenc = "REQUIRED"
+	}
+	if senc == "" {
+		senc = "REQUIRED"
+	}
+	ce := hsreal.End{Auth: "PREFERRED", Enc: cenc, Methods: m, Ciphers: []string{"AES"}}
+	se := hsreal.End{Auth: "PREFERRED", Enc: senc, Methods: m, Ciphers: []string{"AES"}}
+	return hsreal.Config{C: ce, S: se, Cmd: true}
 }
 
 // execute runs one job on real endpoints. For the resumed shape a full
 // handshake over an untouched link first establishes the session.
 func execute(env *hsreal.Env, j *job, timeout time.Duration) (*hsreal.Result, string) {
-	cfg := shapeConfig(j.Shape)
+	cfg := shapeConfig(j.Shape, j.CEnc, j.SEnc)
 	if j.Shape != "resumed" {
 		return hsreal.Run(env, cfg, hsreal.Opts{Relay: j.Action, Timeout: timeout}), ""
 	}
@@ -151,7 +173,9 @@ func compareBaseline(j *job, r *hsreal.Result) *diff {
 		return &diff{"HonestEncryptedTalks", "handshake-fails", fmt.Sprintf("untouched handshake fails: client %q server %q", C.Err, S.Err)}
 	}
 	if !C.StreamEnc || !S.StreamEnc || !C.Enc || !S.Enc {
-		return &diff{"HonestEncryptedTalks", "not-encrypted", fmt.Sprintf("encryption REQUIRED on both ends, IsEncrypted client=%v server=%v", C.StreamEnc, S.StreamEnc)}
+		// (policy variants in which nobody requires encryption are only replayed when
+		// the untouched handshake does end with encryption on - see run)
+		return &diff{"HonestEncryptedTalks", "not-encrypted", fmt.Sprintf("policy %s, IsEncrypted client=%v server=%v, reported %v/%v", j.encPair(), C.StreamEnc, S.StreamEnc, C.Enc, S.Enc)}
 	}
 	if (j.Shape == "resumed") != (C.Resumed && S.Resumed) {
 		return &diff{"HonestEncryptedTalks", "resumption", fmt.Sprintf("shape %s: SessionResumed client=%v server=%v", j.Shape, C.Resumed, S.Resumed)}
@@ -203,18 +227,24 @@ func compareTampered(j *job, r *hsreal.Result) *diff {
 	sc, dc, _ := r.C2S.ClearDigests(j.ClearC2S)
 	ss, ds, _ := r.S2C.ClearDigests(j.ClearS2C)
 	shas := fmt.Sprintf("relay SHA-256 c2s sent %x delivered %x, s2c sent %x delivered %x", sc[:4], dc[:4], ss[:4], ds[:4])
-	if C.AppAccepted || S.AppAccepted {
-		who := "client"
-		enc := C.StreamEnc
-		if !C.AppAccepted {
-			who, enc = "server", S.StreamEnc
+	req := func(l string) bool { return l == "" || l == "REQUIRED" }
+	for _, e := range []struct {
+		who      string
+		side     *hsreal.Side
+		required bool
+	}{{"client", C, req(j.CEnc)}, {"server", S, req(j.SEnc)}} {
+		if !e.side.AppAccepted {
+			continue
 		}
-		class := "app-accepted-" + who
-		if !enc {
+		class := "app-accepted-" + e.who
+		if !e.side.StreamEnc {
+			if !e.required {
+				continue // an end that does not require encryption may be talked down to cleartext: no protected frame, nothing bound
+			}
 			class += "-plaintext"
 		}
 		return &diff{"TamperedMeansNoAppData", class, fmt.Sprintf("cleartext transcripts differ (c2s same=%v, s2c same=%v) and the %s accepted an application message (client: ok=%v enc=%v accepted=%v; server: ok=%v enc=%v accepted=%v); %s",
-			sameC, sameS, who, C.OK, C.StreamEnc, C.AppAccepted, S.OK, S.StreamEnc, S.AppAccepted, shas)}
+			sameC, sameS, e.who, C.OK, C.StreamEnc, C.AppAccepted, S.OK, S.StreamEnc, S.AppAccepted, shas)}
 	}
 	if j.Shape != "resumed" && C.OK && C.StreamEnc {
 		// the client's handshake ends by accepting the protected post-auth ad
@@ -245,7 +275,7 @@ func deviates(l *wire.C04DirLog, k int) bool {
 }
 
 func signature(j *job, d *diff) map[string]string {
-	return map[string]string{"spec": "Handshake", "inv": d.Inv, "class": d.Class, "shape": j.Shape,
+	return map[string]string{"spec": "Handshake", "inv": d.Inv, "class": d.Class, "shape": j.Shape, "enc": j.encPair(),
 		"act": j.Relay.Act, "part": j.Relay.Part, "frame": j.Relay.D + ":" + j.Relay.K}
 }
 
@@ -264,7 +294,15 @@ func expand(c *core.Ctx, b *behaviour, base *job, size int) []*job {
 	switch b.Relay.Act {
 	case "Modify":
 		if b.Relay.Part == "hdr" {
-			for off := 0; off < 5; off++ {
+			// byte 0 (the end flag, 1 in every handshake frame): every value the
+			// receiver may accept (0..10), the first it rejects (11) and 255
+			for v := 0; v <= 11; v++ {
+				if v != 1 {
+					out = append(out, mk(wire.C04Action{Kind: "modify", Offset: 0, Set: true, Value: byte(v)}))
+				}
+			}
+			out = append(out, mk(wire.C04Action{Kind: "modify", Offset: 0, Set: true, Value: 255}))
+			for off := 1; off < 5; off++ { // the length
 				for _, x := range xors {
 					out = append(out, mk(wire.C04Action{Kind: "modify", Offset: off, Xor: x}))
 				}
@@ -436,7 +474,7 @@ func replayFile(c *core.Ctx, env *hsreal.Env) bool {
 }
 
 func run(c *core.Ctx) {
-	c.Assume("both ends require encryption (a handshake that ends without a key has no protected frame to bind anything into)")
+	c.Assume("the property speaks of handshakes that END with encryption on: policies REQUIRED/REQUIRED, and OPTIONAL/OPTIONAL, PREFERRED/OPTIONAL with AES on both ends (cedar keys those too); an end that does not itself require encryption may be talked down to a cleartext session by the relay - that session has no protected frame and is outside the statement")
 	c.Assume("EncOnImpliesSameTranscripts is evaluated for an end once it has accepted a protected frame (client: the post-auth ad; resumed sessions: the first application message); the server's handshake call returns before it has received any protected frame")
 	c.Assume("SHA-256 / AES-GCM of the Go standard library are correct; the relay's transcripts and the reference opener (internal/refcodec) are independent of cedar's stream code")
 	env, err := hsreal.NewEnv(c.Tmp)
@@ -463,7 +501,18 @@ func run(c *core.Ctx) {
 	if c.IsBroken() {
 		return
 	}
-	// distinct behaviours: (shape, relay action); the untouched one per shape first
+	// distinct behaviours: (shape, encryption policy pair, relay action)
+	wanted := func(shape, pair string) bool {
+		switch pair {
+		case "REQUIRED/REQUIRED":
+			return true
+		case "OPTIONAL/OPTIONAL", "PREFERRED/OPTIONAL":
+			// nobody requires encryption, yet both list AES: cedar keys the stream anyway,
+			// and the statement covers every handshake that ENDS with encryption on
+			return shape == "CLAIMTOBE" || shape == "TOKEN" || (c.Thorough() && shape == "noauth")
+		}
+		return false
+	}
 	byKey := map[string]*behaviour{}
 	var keys []string
 	for _, r := range raws {
@@ -475,45 +524,66 @@ func run(c *core.Ctx) {
 			return
 		}
 		b := w.Scn
-		k := fmt.Sprintf("%s|%+v", b.shapeName(), b.Relay)
+		pair := b.CEnc + "/" + b.SEnc
+		if b.Shape == "resume" {
+			pair = "REQUIRED/REQUIRED" // the resumed shape does not read the policy
+			b.CEnc, b.SEnc = "REQUIRED", "REQUIRED"
+		}
+		if !wanted(b.shapeName(), pair) {
+			continue
+		}
+		if b.Relay.Act == "none" && !(b.C.OK && b.C.Enc) {
+			continue // the branch of the model in which the ends choose not to encrypt
+		}
+		k := fmt.Sprintf("%s|%s|%+v", b.shapeName(), pair, b.Relay)
 		if _, ok := byKey[k]; !ok {
 			byKey[k] = &b
 			keys = append(keys, k)
 		}
 	}
 	sort.Strings(keys)
+	vkey := func(b *behaviour) string { return b.shapeName() + "|" + b.CEnc + "/" + b.SEnc }
 	bases := map[string]*job{}
+	var variants []string
 	for _, k := range keys {
 		b := byKey[k]
 		if b.Relay.Act != "none" {
-			if b.App.C || b.App.S || b.Conf.C || b.Conf.S {
+			if (b.App.C && b.C.Enc) || (b.App.S && b.S.Enc) || b.Conf.C || b.Conf.S {
 				c.Broken("model behaviour %s accepts protected data after a relay action", k)
 				return
 			}
 			continue
 		}
 		if !(b.C.OK && b.S.OK && b.App.C && b.App.S && b.C.Enc && b.S.Enc) {
-			c.Broken("model's untouched behaviour of shape %s is not an encrypted conversation", b.shapeName())
+			c.Broken("model's untouched behaviour %s is not an encrypted conversation", k)
 			return
 		}
-		bases[b.shapeName()] = &job{Kind: "C04", Shape: b.shapeName(), Relay: b.Relay, Action: wire.C04Action{Kind: "none"},
+		bases[vkey(b)] = &job{Kind: "C04", Shape: b.shapeName(), CEnc: b.CEnc, SEnc: b.SEnc, Relay: b.Relay, Action: wire.C04Action{Kind: "none"},
 			ClearC2S: b.Clear.C2S, ClearS2C: b.Clear.S2C, NC2S: b.Nsent.C2S, NS2C: b.Nsent.S2C}
+		variants = append(variants, vkey(b))
 	}
-	if len(bases) != 4 {
-		c.Broken("expected 4 handshake shapes from the model, got %d", len(bases))
+	if len(bases) < 8 {
+		c.Broken("expected at least 8 handshake variants (4 shapes + 2 policies x 2 authenticating shapes) from the model, got %d", len(bases))
 		return
 	}
 	st := &stats{bySig: map[string]int{}}
 	// 1. untouched runs: conformance with the model's script and digest coverage by the reference opener
 	sizes := map[string][2][]int{}
 	var baseJobs []*job
-	for _, name := range []string{"noauth", "CLAIMTOBE", "TOKEN", "resumed"} {
-		baseJobs = append(baseJobs, bases[name])
+	skipped := map[string]bool{}
+	for _, name := range variants {
 		r, broke := execute(env, bases[name], 8*time.Second)
 		if broke != "" {
 			c.Broken("%s", broke)
 			return
 		}
+		if bases[name].encPair() != "REQUIRED/REQUIRED" && r.C.OK && r.S.OK && !r.C.StreamEnc && !r.S.StreamEnc {
+			// allowed where nobody requires encryption: there is no protected frame to bind into
+			c.Note("variant " + name + ": the untouched handshake ends without encryption; nothing to check")
+			skipped[name] = true
+			continue
+		}
+		baseJobs = append(baseJobs, bases[name])
 		var sc, ss []int
 		for _, f := range r.C2S.In {
 			sc = append(sc, len(f))
@@ -523,6 +593,7 @@ func run(c *core.Ctx) {
 		}
 		sizes[name] = [2][]int{sc, ss}
 	}
+	c.Set("handshake_variants", len(baseJobs))
 	runJobs(c, env, baseJobs, st)
 	if st.scriptBroken || c.IsBroken() {
 		// the untouched handshake fails or its frame script no longer matches the
@@ -535,22 +606,27 @@ func run(c *core.Ctx) {
 	abstract := 0
 	for _, k := range keys {
 		b := byKey[k]
-		if b.Relay.Act == "none" {
+		if b.Relay.Act == "none" || skipped[vkey(b)] || bases[vkey(b)] == nil {
+			continue
+		}
+		base := bases[vkey(b)]
+		if (b.Relay.D == "c2s" && b.Relay.N > base.ClearC2S) || (b.Relay.D == "s2c" && b.Relay.N > base.ClearS2C) {
+			// a frame that is cleartext only in the model's branch where the ends choose not
+			// to encrypt (post-auth ad, application message): protected on the real wire
 			continue
 		}
 		abstract++
-		base := bases[b.shapeName()]
-		sz := sizes[b.shapeName()][0]
+		sz := sizes[vkey(b)][0]
 		if b.Relay.D == "s2c" {
-			sz = sizes[b.shapeName()][1]
+			sz = sizes[vkey(b)][1]
 		}
 		if b.Relay.N < 1 || b.Relay.N > len(sz) {
-			c.Broken("model frame %s:%d does not exist in the real %s handshake", b.Relay.D, b.Relay.N, b.shapeName())
+			c.Broken("model frame %s:%d does not exist in the real %s handshake", b.Relay.D, b.Relay.N, vkey(b))
 			return
 		}
 		jobs = append(jobs, expand(c, b, base, sz[b.Relay.N-1])...)
 	}
-	c.Set("abstract_behaviours", abstract+4)
+	c.Set("abstract_behaviours", abstract+len(baseJobs))
 	for i := 0; i < 3 && i < len(jobs); i++ {
 		c.Sample(jobs[i*len(jobs)/3])
 	}
@@ -565,5 +641,5 @@ func run(c *core.Ctx) {
 	if c.Thorough() {
 		c.Set("exhaustive", true)
 	}
-	c.Set("rule", "a case is one real handshake of one shape (no authentication, CLAIMTOBE, TOKEN, resumed) through the frame-aware relay with one concrete relay action (byte offset x substitute, inserted frame variant, removed frame, split point, merge), followed by one application message each way; abstract behaviours (shape x cleartext frame x action) are enumerated by TLC from Gen_Handshake mode c04; thorough = every byte offset of every cleartext frame x 3 substitutes, quick = every header byte x 3 substitutes + 24 seeded payload offsets per frame; every case is non-trivial")
+	c.Set("rule", "a case is one real handshake of one shape (no authentication, CLAIMTOBE, TOKEN, resumed) through the frame-aware relay with one concrete relay action (byte offset x substitute, inserted frame variant, removed frame, split point, merge), followed by one application message each way; abstract behaviours (shape x cleartext frame x action) are enumerated by TLC from Gen_Handshake mode c04; thorough = every payload byte offset of every cleartext frame x 3 substitutes, quick = end flag byte set to each of 0..11 and 255, each length byte x 3 substitutes, 24 seeded payload offsets per frame; policy variants: encryption REQUIRED/REQUIRED for all shapes, OPTIONAL/OPTIONAL and PREFERRED/OPTIONAL for the authenticating shapes (and no-authentication in thorough); every case is non-trivial")
 }
